@@ -180,3 +180,11 @@ Example C01_date_forms :
   parse_http_time (bs "Sun Nov 31 08:49:37 1994") = None /\
   parse_http_time (bs "0") = None.
 Proof. vm_compute. repeat split; reflexivity. Qed.
+
+(* ---------- tie to the source: the part of the model this property rests on is what /verif/translate derives from
+   /repo's Go source on this run (Generated/*.v are rewritten before every build; see DESIGN.md section 9) ---------- *)
+From HC.Generated Require Import SrcHit.
+From HC.Proofs Require Import TieHit.
+Theorem C01_source_decision : forall q e now, src_decide_hit q e now = decide_hit q e now.
+Proof. exact tie_decide_hit. Qed.
+Print Assumptions C01_source_decision.
